@@ -447,6 +447,11 @@ U_C01_Overlap(zz) == {DeclP([C0 |-> Class(DefaultOpts, <<U1("a"), DataF("b", SzC
                                                     MvField(DataF("c", SzField("a")), [kind |-> "at", arg |-> g, ref |-> "innermost-pkt"]),
                                                     MvField(U1("d"), [kind |-> "at", arg |-> SzConst(h), ref |-> "begins"])>>)],
                         {0, 1, 2, 46}, 5, {0}) : g \in {SzConst(0), SzConst(2), SzConst(3), SzConst(4)}, h \in {1, 3, 5}}
+\* placed high first, then back at the start, then fields that follow each other into the first one
+U_C01_Overlap3(zz) == {DeclP([C0 |-> Class(DefaultOpts, <<MvField(DataF("f", SzConst(2)), [kind |-> "at", arg |-> SzConst(p), ref |-> "innermost-pkt"]),
+                                                         MvField(U1("k"), [kind |-> "at", arg |-> SzConst(0), ref |-> "innermost-pkt"]),
+                                                         DataF("l", SzMarker(<<0>>, FALSE, TRUE)), U1("z")>>)],
+                             {0, 1, 65}, 6, {0}) : p \in {2, 3, 4}}
 U_C01_OverlapEm(zz) == {DeclP([C0 |-> Class(DefaultOpts, <<MvField(EmF("e"), [kind |-> "at", arg |-> SzConst(2), ref |-> "innermost-pkt"]),
                                                           MvField(DataF("b", SzConst(2)), [kind |-> "at", arg |-> SzConst(3), ref |-> "innermost-pkt"]),
                                                           MvField(DataF("c", SzConst(n)), [kind |-> "at", arg |-> SzConst(1), ref |-> "innermost-pkt"])>>)],
@@ -488,10 +493,10 @@ U_C01_Reent(zz) ==
                  C2 |-> Class(DefaultOpts, <<U1("t"), RefF("h", "C1"),
                                              MvField(U1("d"), [kind |-> "at", arg |-> Lam(EBin("add", EPackLen(EF("h")), EC(k))), ref |-> "innermost-pkt"])>>),
                  C1 |-> ReentHdr], {0, 1, 2}, 7, {0}) : k \in {1, 2}}
-U_C01(zz) == U_C01_Reent(0) \cup U_C08_Shared(0) \cup U_C08_Sel(0) \cup U_C01_Root(0) \cup U_C01_OverlapEm(0) \cup U_C01_Before(0) \cup U_C10_Back(0) \cup U_C01_Data(0) \cup U_C01_Move(0) \cup U_C01_Ctl(0) \cup U_C01_Overlap(0) \cup U_C07_24(0) \cup U_C07_Ctx(0)
+U_C01(zz) == U_C01_Overlap3(0) \cup U_C01_Reent(0) \cup U_C08_Shared(0) \cup U_C08_Sel(0) \cup U_C01_Root(0) \cup U_C01_OverlapEm(0) \cup U_C01_Before(0) \cup U_C10_Back(0) \cup U_C01_Data(0) \cup U_C01_Move(0) \cup U_C01_Ctl(0) \cup U_C01_Overlap(0) \cup U_C07_24(0) \cup U_C07_Ctx(0)
 
 \* the every-change subset: every family is represented, the cross products are thinned
-U_C01_Q(zz) == U_C01_Reent(0) \cup U_C08_Shared(0) \cup U_C08_Sel(0) \cup U_C01_Root(0) \cup U_C01_OverlapEm(0) \cup U_C01_Data(0) \cup U_C01_Overlap(0) \cup U_C07_24(0) \cup U_C01_Before(0) \cup U_C10_Back(0)
+U_C01_Q(zz) == U_C01_Overlap3(0) \cup U_C01_Reent(0) \cup U_C08_Shared(0) \cup U_C08_Sel(0) \cup U_C01_Root(0) \cup U_C01_OverlapEm(0) \cup U_C01_Data(0) \cup U_C01_Overlap(0) \cup U_C07_24(0) \cup U_C01_Before(0) \cup U_C10_Back(0)
            \cup {[d EXCEPT !.alpha = {0, 1, 46}] : d \in U_C10_Class(0) \cup U_C10_Elem(0)}
            \cup {[d EXCEPT !.alpha = {0, 2, 46}, !.starts = {0}] : d \in U_C10_Flat(0)}
            \cup U_C08_Until(0) \cup U_C08_Nest(0)
@@ -554,6 +559,7 @@ PickU(n) ==
       [] n = "U_C04_Lone" -> U_C04_Lone(0)
       [] n = "U_C01_Root" -> U_C01_Root(0)
       [] n = "U_C01_Reent" -> U_C01_Reent(0)
+      [] n = "U_C01_Overlap3" -> U_C01_Overlap3(0)
       [] n = "U_C08_Sign" -> U_C08_Sign(0)
       [] n = "U_Wide" -> U_Wide(0)
       [] n = "U_C08" -> U_C08(0)
